@@ -337,9 +337,9 @@ structure Obs where
   body : Bytes           -- spec: the body;  UI: unused
 deriving DecidableEq, Repr
 
-def wSelf : Bytes := ofStr "self"
-def wNext : Bytes := ofStr "next"
-def wNone : Bytes := ofStr "none"
+def wSelf : Bytes := [115, 101, 108, 102]  -- "self"
+def wNext : Bytes := [110, 101, 120, 116]  -- "next"
+def wNone : Bytes := [110, 111, 110, 101]  -- "none"
 
 /-- The configured document path of a UI middleware (reading 1). -/
 def cfgUIPath (k : Kind) (o : Opts) : Bytes :=
@@ -414,8 +414,8 @@ structure HObs where
   routed : Option Req    -- next: the request the router handed to the matched operation, if any
 deriving DecidableEq, Repr
 
-def wSpec : Bytes := ofStr "spec"
-def wUI : Bytes := ofStr "ui"
+def wSpec : Bytes := [115, 112, 101, 99]  -- "spec"
+def wUI : Bytes := [117, 105]  -- "ui"
 
 /-- model output in the shape of an API-handler observation -/
 def hobsOf (raw : Bytes) (a : Answer) : HObs :=
@@ -450,6 +450,28 @@ def specHandler (ctxBase title : Bytes) (opts : List UIOption) (req : Req) (o : 
     o.who == wUI && o.status == 200 && o.ctype == htmlCT &&
       (!plainURL (effectiveLoc opts) || o.pageSpecURL == effectiveLoc opts)
   else o.who == wNext && (o.routed == none || o.routed == some req)
+
+/-- "the HTML page in which option values are HTML-escaped": the title a reader of the page sees (the
+text of the page's title element, un-escaped ONCE by the harness, as a browser does) is the title option,
+or the default title when none was given.  A value that is not escaped fails this (and the markup
+counts of stream `X`), and so does a value escaped twice. -/
+def wantedTitle (t : Bytes) : Bytes := orDefault t Facts.c20DocsTitle
+
+/-- the title the composed handler's page must show: the API's title unless a title option replaces it -/
+def handlerTitle (ctxBase title : Bytes) (opts : List UIOption) : Bytes :=
+  wantedTitle (uiOptionsWithDefaults ([.basePath ctxBase, .title title] ++ opts)).title
+
+def UIOption.isTemplate : UIOption → Bool
+  | .template _ => true
+  | _ => false
+
+/-- judged on pages of the built-in templates (a caller's template decides itself where the title goes) -/
+def specHandlerTitle (ctxBase title : Bytes) (opts : List UIOption) (o : HObs) : Bool :=
+  !(o.who == wUI && o.status == 200) || opts.any UIOption.isTemplate ||
+    o.pageTitle == handlerTitle ctxBase title opts
+
+def specUITitle (opts : Opts) (servedPage : Bool) (shown : Bytes) : Bool :=
+  !servedPage || shown == wantedTitle opts.title
 
 /-! ## Driver entry -/
 
@@ -566,7 +588,7 @@ def runM (kind bp pth su ti cb hasNext method rp : String)
         (k = .oauth2 || !plainURL p.opts.specURL || ps == p.opts.specURL)
     | _ => pt == [] && ps == []
   pure { agree := mo == o && pageOk,
-         specOk := specUI k opts hn req o,
+         specOk := specUI k opts hn req o && specUITitle opts (o.who == wSelf && o.status == 200) pt,
          tag := s!"M:{kindName k}:{whoStr mo.who}:{relTag req (cfgUIPath k opts)}",
          model := renderObs mo }
 
@@ -617,7 +639,7 @@ def runH (kind ctxBase title kinds vals method rp : String)
       | .notFound _ => ("notfound", false)
     let locKind := if (locPath (effectiveLoc opts)).isSome then "abs" else "rel"
     pure { agree := ok,
-           specOk := specHandler cb ti opts req o,
+           specOk := specHandler cb ti opts req o && specHandlerTitle cb ti opts o,
            tag := s!"H:{kindName k}:{mw}:{locKind}:{relTag req (handlerSpecPath urlPath cb ti opts)}",
            model := mw }
 
